@@ -25,11 +25,11 @@ RULE = ("generated generator bodies (actions spanning yields, logging, try/excep
         "context switch between resumptions of a generator holding an open action, or a throw/close; distinct by (bodies, script)")
 ASSUMPTIONS = ["Twisted is absent: eliot.twisted.inline_callbacks = inlineCallbacks(eliot_friendly_generator_function(f)); the wrapper is the monitored object",
                "'started' means the first resumption of the generator"]
-BATCH = 10
+BATCH = 100
 
 
 def plan(tier, seed):
-    n = 2000 if tier == "quick" else 50000
+    n = 30000 if tier == "quick" else 300000
     return [{"seed": seed, "lo": i, "hi": min(n, i + BATCH)} for i in range(0, n, BATCH)]
 
 
